@@ -26,15 +26,15 @@ Open Scope Qc_scope.
 Definition vec := list Qc.
 Definition mat := list vec.
 
-(* Switches: `true` = the corresponding repair is in /repo (all are: D60 = F1 + F6, D55 = F2, D56 = F3, D54 = F8).  The Impl then
+(* Switches: `true` = the corresponding repair is in /repo (all are: D60 = F1 + F6, D55 = F2, D56 = F3, D92 = F5, D93 = F7, D54 = F8).  The Impl then
    models the repaired mechanism, the guard of that class becomes vacuous, the generator of harness/c16.py (which
    reads these lines) starts producing the class, and the `_refuted` lemma of the class becomes vacuous. *)
 Definition fixed_F1 : bool := true.   (* Connectivity edges are inputs of their own (keyed by (source node, edge index)) *)
 Definition fixed_F2 : bool := true.   (* post-synaptic variable registered under its own name *)
 Definition fixed_F3 : bool := true.   (* scalar weight + coupling template -> full weight matrix *)
-Definition fixed_F5 : bool := false.  (* coupling template on a one-row / one-column matrix: reshape-based broadcasts, total sum for one target *)
+Definition fixed_F5 : bool := true.   (* coupling template on a one-row / one-column matrix: reshape-based broadcasts, total sum for one target *)
 Definition fixed_F6 : bool := true.   (* one input name per variable inside an in-edge operator *)
-Definition fixed_F7 : bool := false.  (* delayed source of one unit read as a scalar *)
+Definition fixed_F7 : bool := true.   (* delayed source of one unit read as a scalar *)
 Definition fixed_F8 : bool := true.   (* one ring buffer per delayed Connectivity *)
 
 Definition mkq (num : Z) (den : positive) : Qc := Q2Qc (num # den).
